@@ -77,6 +77,10 @@ def lty(t):
         return 'PyFile'
     if t == DICT:
         return 'PyDict'
+    if isinstance(t, tuple) and t[0] == 'Obj':
+        return t[1]
+    if isinstance(t, tuple) and t[0] == 'Opt':
+        return '(Option %s)' % lty(t[1])
     return t
 
 
@@ -170,6 +174,13 @@ class FnTranslator:
                     return f'{base}.{ {"is_realtime": "isRealtime", "is_meta": "isMeta"}[e.attr] }', BOOL
                 if t == MSG and e.attr == 'data':
                     return f'{base}.data', LINT
+            if isinstance(e.value, ast.Attribute):
+                base, t = self.expr(e.value)
+                if isinstance(t, tuple) and t[0] == 'Obj':
+                    fields = self.tr.class_fields(t[1])
+                    if e.attr not in fields:
+                        raise Untranslatable(f'field {e.attr} of {t[1]}')
+                    return f'{base}.{e.attr}', fields[e.attr]
             raise Untranslatable('attribute ' + ast.dump(e)[:80])
         if isinstance(e, ast.Subscript):
             if isinstance(e.value, ast.Name) and e.value.id in self.env and isinstance(self.env[e.value.id][1], Rec):
@@ -516,6 +527,11 @@ class FnTranslator:
                 tv, tt = self.expr(e.keywords[0].value)
                 if t == LINT and tt == INT:
                     return f'(← ext.fromBytes {a} {tv})', EXTMSG
+            if f.attr == 'from_bytes' and isinstance(f.value, ast.Name) and f.value.id == 'Message' and len(e.args) == 1 \
+                    and not e.keywords and getattr(self.unit, 'ext', False):
+                a, t = self.expr(e.args[0])
+                if t == LINT:
+                    return f'(← ext.fromBytes {a} (0 : Int))', EXTMSG       # time=0 is the default
             if f.attr == 'bytes' and not e.args and not e.keywords:
                 a, t = self.expr(f.value)
                 if t == MSG:
@@ -675,6 +691,13 @@ class FnTranslator:
                 self.env[n] = (n, vt)
                 out.append(f'{ind}let mut {n} : {lty(vt)} := {val}')
             return
+        if isinstance(tgt, ast.Attribute) and isinstance(tgt.value, ast.Attribute):
+            # self.a.b = v   (a field of an object held in a field)
+            base, t = self.expr(tgt.value)
+            if isinstance(t, tuple) and t[0] == 'Obj' and tgt.attr in self.tr.class_fields(t[1]):
+                inner = f'{{ {base} with {tgt.attr} := {val} }}'
+                self.assign_target(tgt.value, inner, t, ind, out)
+                return
         if isinstance(tgt, ast.Attribute) and isinstance(tgt.value, ast.Name) and tgt.value.id in self.env:
             base, t = self.env[tgt.value.id]
             if t == 'Self':
@@ -704,8 +727,15 @@ class FnTranslator:
     def ret_value(self, e):
         """what `return e` hands back; methods return the object state (and a value)"""
         if self.unit.cls is not None:
-            if e is None or (isinstance(e, ast.Constant) and e.value is None):
+            if (e is None or (isinstance(e, ast.Constant) and e.value is None)) and not (isinstance(self.unit.ret, tuple) and self.unit.ret[0] == 'Opt'):
                 return 'self'
+            if isinstance(self.unit.ret, tuple) and self.unit.ret[0] == 'Opt':
+                if e is None or (isinstance(e, ast.Constant) and e.value is None):
+                    return '(none, self)'
+                v, t = self.expr(e)
+                if t != self.unit.ret[1]:
+                    raise Untranslatable(f'return of {t} where {self.unit.ret} is declared')
+                return f'(some {v}, self)'
             v, t = self.expr(e)
             if self.unit.ret in (None, NONE):
                 # `return self.method(...)` of a method returning None
@@ -773,6 +803,18 @@ class FnTranslator:
                 out.append(f'{ind}let r__ ← readByte {f}')
                 self.assign_target(s.targets[0], 'r__.1', INT, ind, out)
                 out.append(f'{ind}{f} := r__.2')
+                return out
+            if isinstance(s.value, ast.Call) and isinstance(s.value.func, ast.Attribute) and s.value.func.attr == 'popleft' \
+                    and not s.value.args and not s.value.keywords:
+                # x = q.popleft(): the first element (IndexError on an empty deque), and q loses it
+                q, qt = self.expr(s.value.func.value)
+                if not (isinstance(qt, tuple) and qt[0] == 'List'):
+                    raise Untranslatable('popleft on ' + str(qt))
+                self.ntmp = getattr(self, 'ntmp', 0) + 1
+                tmp = f'h__{self.ntmp}'
+                out.append(f'{ind}let {tmp} ← idx {q} (0 : Int)')
+                self.assign_target(s.value.func.value, f'(List.tail {q})', qt, ind, out)
+                self.assign_target(s.targets[0], tmp, qt[1], ind, out)
                 return out
             value = self.lift(s.value, ind, out)
             v, t = self.expr(value)
@@ -913,8 +955,24 @@ class FnTranslator:
                     raise Untranslatable('call of untranslated method ' + f.attr)
                 args = ' '.join(self.expr(a)[0] for a in e.args)
                 if u.ret in (None, NONE):
-                    return [f'{ind}self ← {u.lean_name} self {args}']
+                    return [f'{ind}self ← {u.lean_name} {"ext " if getattr(u, "ext", False) else ""}self {args}']
                 raise Untranslatable('method with a value used as statement')
+            # self.obj.method(args) where self.obj is an object of a translated class
+            if isinstance(f.value, ast.Attribute):
+                try:
+                    ob, ot = self.expr(f.value)
+                except Untranslatable:
+                    ob, ot = None, None
+                if isinstance(ot, tuple) and ot[0] == 'Obj':
+                    u = next((x for x in self.tr.units if x.cls == ot[1] and x.name == f.attr), None)
+                    if u is None:
+                        raise Untranslatable(f'call of untranslated method {ot[1]}.{f.attr}')
+                    if u.ret not in (None, NONE):
+                        raise Untranslatable('method with a value used as statement')
+                    args = ' '.join(self.expr(a)[0] for a in e.args)
+                    out = []
+                    self.assign_target(f.value, f'(← {u.lean_name} {ob} {args})', ot, ind, out)
+                    return out
             # outfile.write(data): the bytes are appended to what has been written
             if f.attr == 'write' and isinstance(f.value, ast.Name) and self.env.get(f.value.id, (None, None))[1] == FILE and len(e.args) == 1:
                 v, vt = self.expr(e.args[0])
@@ -984,7 +1042,44 @@ class FnTranslator:
                 names.append(tg.id)
         return names
 
+    def inline_generator(self, s):
+        """for x in OBJ: BODY [else: E]  where OBJ's class has  def __iter__(self): while C: yield V
+        is  while C[self:=OBJ]: x = V[self:=OBJ]; BODY  followed by E (the body has no break): exactly the interleaving
+        Python performs, the generator running up to its next yield each time round the loop."""
+        try:
+            ob, ot = self.expr(s.iter)
+        except Untranslatable:
+            return None
+        cls = self.unit.cls if ot == 'Self' else (ot[1] if isinstance(ot, tuple) and ot[0] == 'Obj' else None)
+        if cls is None:
+            return None
+        file = next((u.file for u in self.tr.units if u.cls == cls), None)
+        if file is None:
+            return None
+        it = self.tr.find(file, '__iter__', cls)
+        body = [b for b in it.body if not (isinstance(b, ast.Expr) and isinstance(b.value, ast.Constant))]
+        if len(body) != 1 or not isinstance(body[0], ast.While) or body[0].orelse or len(body[0].body) != 1 \
+                or not isinstance(body[0].body[0], ast.Expr) or not isinstance(body[0].body[0].value, ast.Yield) \
+                or body[0].body[0].value.value is None:
+            raise Untranslatable(f'{cls}.__iter__ is not of the form `while C: yield V`')
+        if any(isinstance(x, ast.Break) for b in s.body for x in ast.walk(b)):
+            raise Untranslatable('break in a for loop over a generator')
+        obj_ast = s.iter
+
+        class Sub(ast.NodeTransformer):
+            def visit_Name(self, n):
+                if n.id == 'self':
+                    return ast.parse(ast.unparse(obj_ast), mode='eval').body
+                return n
+        cond = Sub().visit(ast.parse(ast.unparse(body[0].test), mode='eval').body)
+        val = Sub().visit(ast.parse(ast.unparse(body[0].body[0].value.value), mode='eval').body)
+        loop = ast.While(test=cond, body=[ast.Assign(targets=[s.target], value=val)] + list(s.body), orelse=[])
+        return [loop] + list(s.orelse)
+
     def for_stmt(self, s, ind):
+        inl = self.inline_generator(s)
+        if inl is not None:
+            return self.block([ast.fix_missing_locations(x) for x in inl], ind)
         if s.orelse or not isinstance(s.target, ast.Name):
             raise Untranslatable('for form')
         v = s.target.id
@@ -1051,6 +1146,8 @@ class FnTranslator:
         rty = lty(self.unit.ret) if self.unit.ret not in (None, NONE) else 'Unit'
         if any(is_file(t) for _, t in self.unit.params):
             rty = '(' + ' × '.join([rty] + [lty(t) for _, t in self.unit.params if is_file(t)]) + ')'
+        if has_self:
+            rty = self.unit.self_type if self.unit.ret in (None, NONE) else f'({lty(self.unit.ret)} × {self.unit.self_type})'
         if returns:
             resty = f'(Sum {rty} {tupty})'      # inl: the function returned; inr: the loop ended
         else:
@@ -1102,7 +1199,8 @@ class FnTranslator:
         if returns:
             body = [(b.replace('return ', 'return Sum.inl (') + ')') if ('return ' in b and 'return (Sum.inr' not in b) else b for b in body]
         lines.extend(body)
-        lines.append(f'      {aux_name} {fargs} fuel {" ".join(state)}')
+        if not self.terminates(s.body):
+            lines.append(f'      {aux_name} {fargs} fuel {" ".join(state)}')
         lines.append(f'    else {done}')
         self.aux.append('\n'.join(lines))
         out = []
@@ -1167,6 +1265,9 @@ class FnTranslator:
             return True
         if isinstance(last, ast.If):
             return bool(last.orelse) and self.terminates(last.body) and self.terminates(last.orelse)
+        if isinstance(last, ast.For) and last.orelse and self.terminates(last.orelse) and \
+                not any(isinstance(x, ast.Break) for x in ast.walk(last)):
+            return True
         if isinstance(last, ast.While) and isinstance(last.test, ast.Constant) and last.test.value is True and \
                 not any(isinstance(x, ast.Break) for x in ast.walk(last)):
             return True
@@ -1364,6 +1465,12 @@ class Translator:
             self.failures.append(f'dispatch tables: {type(e).__name__}: {e}')
         return '\n\n'.join(out)
 
+    def class_fields(self, cls):
+        for u in self.units:
+            if u.cls == cls and u.fields:
+                return u.fields
+        raise Untranslatable('unknown class ' + cls)
+
     def unit_by_pyname(self, file, name, cls=None, pycls=None):
         if pycls is not None:
             for u in self.units:
@@ -1398,8 +1505,8 @@ class Translator:
 
     GROUPS = {'mido/messages/encode.py': 'Codec', 'mido/messages/decode.py': 'Codec', 'mido/messages/checks.py': 'Codec',
               'mido/tokenizer.py': 'Tok', 'mido/midifiles/meta.py': 'MetaNum', 'mido/midifiles/tracks.py': 'Tracks',
-              'mido/midifiles/midifiles.py': 'FileIO'}
-    DEPS = {'Codec': [], 'Msg': ['Codec'], 'Tok': [], 'MetaNum': [], 'Tracks': [], 'FileIO': ['MetaNum', 'Tracks']}
+              'mido/midifiles/midifiles.py': 'FileIO', 'mido/parser.py': 'Parser'}
+    DEPS = {'Codec': [], 'Msg': ['Codec'], 'Tok': [], 'Parser': ['Tok'], 'MetaNum': [], 'Tracks': [], 'FileIO': ['MetaNum', 'Tracks']}
 
     def run_groups(self):
         """one generated file per group of source files, so that a function that cannot be translated (or an edit that
@@ -1412,7 +1519,10 @@ class Translator:
             defs = per[g]
             if u.cls is not None and u.self_type not in structs:
                 fl = '\n'.join(f'  {k} : {lty(t)} := {dflt}' for k, (t, dflt) in u.field_defaults.items())
-                structs[u.self_type] = f'structure {u.self_type} where\n{fl}\n  deriving DecidableEq, Repr, Inhabited'
+                if getattr(u, 'ext', False):
+                    structs[u.self_type] = f'structure {u.cls} (M : Type) where\n{fl}'
+                else:
+                    structs[u.self_type] = f'structure {u.self_type} where\n{fl}\n  deriving DecidableEq, Repr, Inhabited'
                 defs.append(structs[u.self_type])
             try:
                 pycls = getattr(u, 'pycls', None)
@@ -1509,6 +1619,15 @@ def units():
         u = Unit(T, n, ps, NONE, cls='Tokenizer', fields={k: t for k, (t, _) in _tok_fields().items()},
                  self_type='Tokenizer')
         u.field_defaults = _tok_fields()
+        U.append(u)
+    P = 'mido/parser.py'
+    pf = {'messages': (LIST(EXTMSG), '[]'), '_tok': (('Obj', 'Tokenizer'), '{}')}
+    for n, ps, ret, fuel in (('_decode', [], NONE, {'loop1': 'self._tok._messages.length + 1'}),
+                             ('feed', [('data', LINT)], NONE, None), ('feed_byte', [('byte', INT)], NONE, None),
+                             ('get_message', [], ('Opt', EXTMSG), {'loop1': 'self.messages.length + 1'}),
+                             ('pending', [], INT, None)):
+        u = Unit(P, n, ps, ret, cls='Parser', fields={k: t for k, (t, _) in pf.items()}, self_type='(Parser M)', fuel=fuel)
+        u.field_defaults, u.ext = pf, True
         U.append(u)
     M = 'mido/midifiles/meta.py'
     U.append(Unit(M, 'encode_variable_int', [('value', INT)], LINT, fuel={'loop1': 'value.toNat'}))
